@@ -5,7 +5,7 @@ CFG = dict(
     checker="check_case",
     n=dict(quick=200, thorough=4000),
     shard=30,
-    rule="cases 0-2 are scripted minimal witnesses of the three handle-count findings; each other case = one pool (2-8 blocks of 2-8 addresses), 1-3 hosts, an IPAM config (strict affinity / auto-allocate / "
+    rule="cases 0-3 are scripted minimal witnesses of the four handle-count findings; each other case = one pool (2-8 blocks of 2-8 addresses), 1-3 hosts, an IPAM config (strict affinity / auto-allocate / "
          "block limit), and 1-3 clients of the REAL ipamClient each running 2-15 AutoAssign / AssignIP / ReleaseIPs / "
          "ReleaseByHandle / ClaimAffinity / ReleaseAffinity operations against the in-memory CAS backend; even cases are sequential (one client), odd cases "
          "are concurrent: a seeded scheduler picks which client performs its next datastore access, injects write "
@@ -23,7 +23,11 @@ CFG = dict(
                  "randomBlockGenerator's start index and Go map iteration order are inputs (universally quantified in the theorems)",
                  "blocks claimed less than one minute ago are never reclaimed (EmptyBlockMinReclaimAge)",
                  "the variant of claimAffineBlock (with / without fixes/C22-claim-existing-block-bumps-revision.patch) is probed "
-                 "by the driver on the tree under test and passed to the model as c_fx; all theorems are for both variants"],
+                 "by the driver on the tree under test and passed to the model as c_fx; all theorems are for both variants",
+                 "likewise the variant of releaseByHandle (with / without fixes/C19-releasebyhandle-notfound-no-decrement.patch) is "
+                 "probed and passed as c_fy; the safety theorems hold for both, the handle-agreement theorems for the fixed one",
+                 "handle-agreement theorem: every client meets fewer than cf_retries-1 conflicts (otherwise the Go code abandons a "
+                 "roll-back); ReleaseIPs addresses lie in the block (wf_op)"],
 )
 
 def classify(line):
